@@ -237,6 +237,82 @@ class Body:
                     out.append((u, v))
         return out
 
+    def live_in(self):
+        """{bb: frozenset(locals possibly read on some path from the start of bb before being overwritten)}
+        (classic backward liveness; a use through a projection or a borrow counts as a read of the base)."""
+        if getattr(self, "_live", None) is not None:
+            return self._live
+
+        def op_locals(op, acc):
+            if isinstance(op, dict) and op.get("k") in ("copy", "move"):
+                acc.add(op["p"]["l"])
+                for e in op["p"]["pr"]:
+                    if e["k"] == "index":
+                        acc.add(e["local"])
+
+        def place_base(p, acc):
+            acc.add(p["l"])
+            for e in p["pr"]:
+                if e["k"] == "index":
+                    acc.add(e["local"])
+
+        use, deff = {}, {}
+        for bi, blk in enumerate(self.blocks):
+            u, d = set(), set()
+            for st in blk["stmts"]:
+                acc = set()
+                if st["k"] == "assign":
+                    rv = st["rv"]
+                    for key in ("op", "a", "b"):
+                        if key in rv:
+                            op_locals(rv[key], acc)
+                    for o in rv.get("ops", []):
+                        op_locals(o, acc)
+                    if "p" in rv and isinstance(rv["p"], dict):
+                        place_base(rv["p"], acc)
+                    if st["p"]["pr"]:
+                        place_base(st["p"], acc)
+                elif st["k"] == "setdiscr":
+                    place_base(st["p"], acc)
+                u |= (acc - d)
+                if st["k"] == "assign" and not st["p"]["pr"]:
+                    d.add(st["p"]["l"])
+            t = blk["term"]
+            acc = set()
+            k = t["k"]
+            if k == "call":
+                op_locals(t.get("func"), acc)
+                for a in t["args"]:
+                    op_locals(a, acc)
+                if t["dest"]["pr"]:
+                    place_base(t["dest"], acc)
+            elif k == "switch":
+                op_locals(t["discr"], acc)
+            elif k == "assert":
+                op_locals(t.get("cond"), acc)
+            elif k == "drop":
+                place_base(t["p"], acc)
+            elif k == "return":
+                acc.add(0)
+            u |= (acc - d)
+            if k == "call" and not t["dest"]["pr"]:
+                d.add(t["dest"]["l"])
+            use[bi], deff[bi] = u, d
+        live = {bi: set() for bi in range(len(self.blocks))}
+        changed = True
+        while changed:
+            changed = False
+            for bi in range(len(self.blocks) - 1, -1, -1):
+                out = set()
+                for sx in self.succ(bi):
+                    out |= live[sx]
+                new = use[bi] | (out - deff[bi])
+                if new != live[bi]:
+                    live[bi] = new
+                    changed = True
+        self._live = {bi: frozenset(v) for bi, v in live.items()}
+        return self._live
+
     def return_blocks(self):
         return [i for i in self.reach() if self.blocks[i]["term"]["k"] == "return"]
 
@@ -833,6 +909,9 @@ CLOSURE_RUNS_ON = {
     "std::option::Option::<T>::ok_or_else": (0, "replaces"),
     "std::option::Option::<T>::map": (1, "replaces"),
     "std::option::Option::<T>::and_then": (1, "replaces"),
+    # `cond.then(|| ..)`: the closure runs exactly when the receiver is true
+    "core::bool::<impl bool>::then": (1, "replaces"),
+    "std::bool::<impl bool>::then": (1, "replaces"),
 }
 
 
@@ -847,37 +926,66 @@ class PathSens:
 
     MAX_STATES = 60000
 
-    def __init__(self, sup):
+    def __init__(self, sup, payloads=False):
         self.sup = sup
         self.overflow = False
+        # also track the variant of the single payload of a value whose own variant is known
+        # (`Err(None)` vs `Err(Some(_))`); off by default: it multiplies the number of states
+        self.payloads = payloads
+        # node -> (fact, payload_fact): assumed result of the (opaque) call at that node
+        self.assume = {}
 
     # facts: dict key=(path, local) -> ('var', idx) | ('const', v) | ('discr_of', key)
 
-    def _set_from_operand(self, facts, key, path, op):
+    @staticmethod
+    def _pk(key):
+        return (key[0], key[1], "p")
+
+    def _clear(self, facts, key):
+        facts.pop(key, None)
+        facts.pop(self._pk(key), None)
+
+    def _operand_fact(self, facts, path, op):
+        """(fact, payload_fact) of an operand, or (None, None)."""
         if op.get("k") == "const":
             v = op.get("v")
             if isinstance(v, (bool, int)):
-                facts[key] = ("const", int(v))
-                return
-            if "variant" in op:
-                # fieldless enum constant: variant known by name only -> keep as const of v
-                pass
-            facts.pop(key, None)
-            return
-        if is_place(op) and not op["p"]["pr"]:
+                return ("const", int(v)), None
+            return None, None
+        if is_place(op):
+            pr = op["p"]["pr"]
             src = (path, op["p"]["l"])
-            if src in facts and facts[src][0] != "discr_of":
-                facts[key] = facts[src]
-                return
-        facts.pop(key, None)
+            if not pr:
+                f = facts.get(src)
+                if f and f[0] != "discr_of":
+                    return f, facts.get(self._pk(src))
+                return None, facts.get(self._pk(src)) if f is None else None
+            # `(Y as V).0`: the payload of a value whose variant is known to be V
+            if len(pr) == 2 and pr[0]["k"] == "downcast" and pr[1]["k"] == "field" and pr[1].get("i", 0) == 0:
+                f = facts.get(src)
+                if f and f[0] == "var" and f[1] == pr[0]["idx"]:
+                    return facts.get(self._pk(src)), None
+        return None, None
+
+    def _set_from_operand(self, facts, key, path, op):
+        f, pf = self._operand_fact(facts, path, op)
+        # a moved-from local is dead: forgetting its facts keeps the state space small
+        if op.get("k") == "move" and is_place(op) and not op["p"]["pr"] and (path, op["p"]["l"]) != key:
+            src = (path, op["p"]["l"])
+            if not any(v[0] == "discr_of" and v[1] == src for v in facts.values()):
+                self._clear(facts, src)
+        self._clear(facts, key)
+        if f is not None:
+            facts[key] = f
+        if pf is not None and self.payloads:
+            facts[self._pk(key)] = pf
 
     def _stmt(self, facts, path, s):
         if s["k"] == "setdiscr":
             key = (path, s["p"]["l"])
+            self._clear(facts, key)
             if not s["p"]["pr"]:
                 facts[key] = ("var", s["idx"])
-            else:
-                facts.pop(key, None)
             return
         if s["k"] != "assign":
             return
@@ -886,15 +994,22 @@ class PathSens:
         rv = s["rv"]
         # invalidate discr_of links pointing to an overwritten local
         if p["pr"]:
-            facts.pop(key, None)
+            self._clear(facts, key)
             return
         k = rv["k"]
         if k == "aggregate" and rv["agg"] == "adt":
+            pf = None
+            if len(rv["ops"]) == 1:
+                pf, _ = self._operand_fact(facts, path, rv["ops"][0])
+            self._clear(facts, key)
             facts[key] = ("var", rv["variant_idx"])
+            if pf is not None and pf[0] in ("var", "const") and self.payloads:
+                facts[self._pk(key)] = pf
         elif k == "use":
             self._set_from_operand(facts, key, path, rv["op"])
         elif k == "discr":
             sp = rv["p"]
+            self._clear(facts, key)
             if not sp["pr"]:
                 skey = (path, sp["l"])
                 if skey in facts and facts[skey][0] == "var":
@@ -904,12 +1019,14 @@ class PathSens:
                 else:
                     facts[key] = ("discr_of", skey)
             else:
-                facts.pop(key, None)
+                f, _ = self._operand_fact(facts, path, {"k": "copy", "p": sp})
+                if f and f[0] == "var":
+                    facts[key] = ("const", f[1])
         elif k == "ref" and rv.get("mut") and not rv["p"]["pr"]:
-            facts.pop((path, rv["p"]["l"]), None)
-            facts.pop(key, None)
+            self._clear(facts, (path, rv["p"]["l"]))
+            self._clear(facts, key)
         else:
-            facts.pop(key, None)
+            self._clear(facts, key)
 
     def _kill_links(self, facts, key):
         for k2, v in list(facts.items()):
@@ -972,7 +1089,7 @@ class PathSens:
             recv = None
             if run_on is not None and t["args"] and is_place(t["args"][0]) and not t["args"][0]["p"]["pr"]:
                 rf = facts.get((path, t["args"][0]["p"]["l"]))
-                if rf and rf[0] == "var":
+                if rf and rf[0] in ("var", "const"):
                     recv = rf[1]
             has_may = any(lab == "maycall" for lab, _ in edges)
             for lab, succ in edges:
@@ -994,7 +1111,28 @@ class PathSens:
                     continue
                 # ordinary return edge of an opaque call
                 self._kill_links(f2, dkey)
-                f2.pop(dkey, None)
+                self._clear(f2, dkey)
+                forced = self.assume.get(node)
+                if forced is not None and not dest["pr"]:
+                    f2[dkey] = forced[0]
+                    if len(forced) > 1 and forced[1] is not None and self.payloads:
+                        f2[self._pk(dkey)] = forced[1]
+                    out.append((lab, succ, f2))
+                    continue
+                if f and not dest["pr"] and recv is not None and run_on is not None and not (recv == run_on[0]):
+                    # the closure does not run: combinators that keep the receiver's variant
+                    if f["def"].rsplit("::", 1)[-1] in ("map_err", "map", "or_else", "and_then"):
+                        f2[dkey] = ("var", recv)
+                if f and not dest["pr"] and f["def"] in ("core::bool::<impl bool>::then_some", "std::bool::<impl bool>::then_some", "core::bool::<impl bool>::then", "std::bool::<impl bool>::then") and t["args"]:
+                    cf_, _ = self._operand_fact(facts, path, t["args"][0])
+                    if cf_ and cf_[0] == "const":
+                        if cf_[1] == 0:
+                            f2[dkey] = ("var", 0)
+                        elif f["def"].endswith("then_some"):
+                            f2[dkey] = ("var", 1)
+                            pf_, _ = self._operand_fact(facts, path, t["args"][1]) if len(t["args"]) > 1 else (None, None)
+                            if pf_ is not None and pf_[0] in ("var", "const") and self.payloads:
+                                f2[self._pk(dkey)] = pf_
                 if f and not dest["pr"]:
                     d = f["def"]
                     if d == "std::ops::Try::branch" and t["args"]:
@@ -1029,10 +1167,40 @@ class PathSens:
                 is_direct = any(l == "call" and s[0] == path for l, s in sup.edges((ppath, cbb)))
                 dkey = (ppath, ct["dest"]["l"])
                 self._kill_links(f2, dkey)
-                if is_direct and not ct["dest"]["pr"] and (path, 0) in facts and facts[(path, 0)][0] != "discr_of":
-                    f2[dkey] = facts[(path, 0)]
+                ret_f = facts.get((path, 0))
+                ret_pf = facts.get(self._pk((path, 0)))
+                self._clear(f2, dkey)
+                if ct["dest"]["pr"]:
+                    pass
+                elif is_direct:
+                    if ret_f and ret_f[0] != "discr_of":
+                        f2[dkey] = ret_f
+                        if ret_pf is not None and self.payloads:
+                            f2[self._pk(dkey)] = ret_pf
                 else:
-                    f2.pop(dkey, None)
+                    # a closure returning into a std combinator: the call's value is built from the closure's
+                    cname = (fn_of(ct) or {}).get("def", "")
+                    short = cname.rsplit("::", 1)[-1]
+                    wraps = None
+                    if cname.startswith("std::result::Result") and short == "map_err":
+                        wraps = 1
+                    elif cname.startswith("std::result::Result") and short == "map":
+                        wraps = 0
+                    elif cname.startswith("std::option::Option") and short == "map":
+                        wraps = 1
+                    elif short == "then" and "bool" in cname:
+                        wraps = 1
+                    if wraps is not None:
+                        f2[dkey] = ("var", wraps)
+                        if ret_f and ret_f[0] in ("var", "const") and self.payloads:
+                            f2[self._pk(dkey)] = ret_f
+                    elif short in ("unwrap_or_else", "or_else", "and_then", "ok_or_else") and ret_f and ret_f[0] != "discr_of":
+                        if short == "ok_or_else":
+                            f2[dkey] = ("var", 1)
+                        else:
+                            f2[dkey] = ret_f
+                            if ret_pf is not None and self.payloads:
+                                f2[self._pk(dkey)] = ret_pf
                 for key in list(f2.keys()):
                     if key[0][: len(path)] == path and len(key[0]) >= len(path):
                         del f2[key]
@@ -1070,8 +1238,22 @@ class PathSens:
             for lab, m, f2 in self.step(n, f):
                 if m in rn or (n, m) in re_ or (n, lab, m) in re_:
                     continue
-                stack.append((m, f2))
+                stack.append((m, self._prune(m, f2)))
         return reached
+
+    def _prune(self, node, facts):
+        """Forget facts about locals of the current frame that are dead at the start of `node`."""
+        path, bb = node
+        live = self.sup.body_of(node).live_in().get(bb, frozenset())
+        linked = {v[1] for v in facts.values() if v[0] == "discr_of"}
+        out = {}
+        for k, v in facts.items():
+            if k[0] == path and k[1] not in live and (k[0], k[1]) not in linked:
+                continue
+            if v[0] == "discr_of" and v[1][0] == path and v[1][1] not in live and k[1] not in live:
+                continue
+            out[k] = v
+        return out
 
     def reach(self, removed_nodes=(), removed_edges=()):
         return set(self.explore([(self.sup.entry, {})], removed_nodes, removed_edges).keys())
